@@ -213,7 +213,7 @@ def model(draw, logic, *, max_worlds=3, max_consts=3, natoms=3, preds=((0, 0, 1)
     rel = _relation(draw, frame, worlds) if frame else set()
     nc = draw(st.integers(1, max_consts))
     if draw(st.booleans()):
-        consts = [A.const(i) for i in range(nc)]
+        consts = [A.const(i % 4, i // 4) for i in range(nc)]
     else:
         # arbitrary names: all four letters, subscripts, not in alphabetical order of appearance
         # a window of the constants in their true order (a b c d a1 b1 ...), shuffled: names that wrap the
